@@ -289,6 +289,11 @@ func writeEvidence(o *Options, pc *PropertyConfig, d evidenceData) {
 		for k, v := range d.aux.Coverage {
 			cov[k] = v
 		}
+		if n, ok := d.aux.Coverage["evaluations_bounded"].(int64); ok && d.nObl == 0 {
+			cov["evaluations"] = n
+			cov["distinct_nontrivial"] = n
+			cov["rule"] = "bounded enumeration: one evaluation = one input (instruction word / byte string) run through goom's decoder under the contract monitor and compared with the reference decoder; inputs are distinct by construction"
+		}
 	}
 	var vs []interface{}
 	for _, v := range d.violations {
